@@ -92,11 +92,12 @@ fn borrow_method(k: usize, x: usize) -> (String, String) {
             format!("pub fn tagline<'a>(deps: &'a impl Sized, k: &str) -> &'a [&'a str] {{ rt::trace(format!(\"X{x}.TL|{{}}|{{}}\", rt::addr(deps), k)); &[\"X{x}\"] }}\n"),
         ),
         7 => ("fn tagline<'a>(self: &'a Self, n: u32) -> &'a str".to_string(), format!("pub fn tagline<'a>(deps: &'a impl Sized, n: u32) -> &'a str {{ rt::trace(format!(\"X{x}.TL|{{}}|{{}}\", rt::addr(deps), n)); \"X{x}\" }}\n")),
+        8 => ("fn tagline(&self, n: u32) -> &str".to_string(), format!("pub fn tagline(deps: &'_ impl Sized, n: u32) -> &str {{ rt::trace(format!(\"X{x}.TL|{{}}|{{}}\", rt::addr(deps), n)); \"X{x}\" }}\n")),
         _ => ("fn tagline<'a>(&self, s: &'a str) -> &'a str".to_string(), format!("pub fn tagline<'a>(deps: &impl Sized, s: &'a str) -> &'a str {{ rt::trace(format!(\"X{x}.TL|{{}}|{{}}\", rt::addr(deps), s)); s }}\n")),
     }
 }
 
-pub const BORROW_KINDS: [&str; 8] = ["borrow from the receiver (elided lifetime)", "borrow from the receiver (named lifetime)", "borrow from an argument (named lifetime)", "borrow from the receiver (named lifetime next to an elided one in the output)", "borrow from the receiver (elided) next to another reference argument", "elided lifetime nested inside an elided reference output", "elided lifetime nested inside an elided reference output next to another reference argument", "borrow from a typed receiver `self: &'a Self`"];
+pub const BORROW_KINDS: [&str; 9] = ["borrow from the receiver (elided lifetime)", "borrow from the receiver (named lifetime)", "borrow from an argument (named lifetime)", "borrow from the receiver (named lifetime next to an elided one in the output)", "borrow from the receiver (elided) next to another reference argument", "elided lifetime nested inside an elided reference output", "elided lifetime nested inside an elided reference output next to another reference argument", "borrow from a typed receiver `self: &'a Self`", "borrow from the receiver, the block's dependency written `&'_ impl ..`"];
 
 pub fn gen_case(t: &mut Tape, excl: &[usize]) -> Case {
     let dynamic = t.chance(2, 5);
@@ -126,7 +127,7 @@ pub fn gen_case(t: &mut Tape, excl: &[usize]) -> Case {
         methods[0].is_async = true;
     }
     // an extra method that returns a borrow: from the receiver / the dependency (elided or named lifetime) or from an argument
-    let borrow_kind: Option<usize> = if t.chance(1, 3) { Some([0, 1, 2, 3, 4, 2, 5, 6, 7][t.choose(9)]) } else { None };
+    let borrow_kind: Option<usize> = if t.chance(1, 3) { Some([0, 1, 2, 3, 4, 2, 5, 6, 7, 8][t.choose(10)]) } else { None };
     let borrow_kind = borrow_kind.filter(|k| !excl.contains(k));
     // static selection: a method with type / const parameters of its own (one inferable from an argument, one not),
     // and a method that takes `self` by value (the block's fn takes its dependency by value)
@@ -139,6 +140,8 @@ pub fn gen_case(t: &mut Tape, excl: &[usize]) -> Case {
     let dflt_pat = t.chance(1, 5);
     // a `&mut self` method next to the `&self` ones (static selection: the block's fn still takes `&impl Deps`)
     let mut_method = !dynamic && t.chance(1, 4);
+    // (the exclusive receiver may be written as a typed one)
+    let mut_typed = mut_method && t.chance(1, 3);
     let n_targets = t.range(2, 3);
     // dynamic selection of an async trait may opt out of Send futures as well: `?Send` + `#[async_trait(?Send)]`
     let maybe_send_dyn = dynamic && any_async && t.chance(1, 3);
@@ -184,7 +187,7 @@ pub fn gen_case(t: &mut Tape, excl: &[usize]) -> Case {
         src.push_str(&format!("    {};\n", borrow_method(k, 0).0));
     }
     if mut_method {
-        src.push_str("    fn record(&mut self, level: u8, line: &str) -> String;\n");
+        src.push_str(if mut_typed { "    fn record(self: &mut Self, level: u8, line: &str) -> String;\n" } else { "    fn record(&mut self, level: u8, line: &str) -> String;\n" });
     }
     if gen_method.is_some() {
         src.push_str("    fn convert<W: ::core::fmt::Debug + Default, const K: usize>(&self, w: W) -> String;\n");
@@ -388,7 +391,7 @@ pub fn gen_case(t: &mut Tape, excl: &[usize]) -> Case {
         classes.push("three_targets");
     }
     if mut_method {
-        classes.push("mut_self_method");
+        classes.push(if mut_typed { "mut_self_method_typed_receiver" } else { "mut_self_method" });
     }
     if hygiene_trait.is_some() {
         classes.push("trait_from_macro_rules_with_same_spelled_parameters");
@@ -400,7 +403,7 @@ pub fn gen_case(t: &mut Tape, excl: &[usize]) -> Case {
         classes.push("block_fn_parameter_named___impl");
     }
     if let Some(k) = borrow_kind {
-        classes.push(["borrowed_return:receiver_elided", "borrowed_return:receiver_named", "borrowed_return:argument_named", "borrowed_return:receiver_named_and_elided", "borrowed_return:receiver_elided_next_to_reference_argument", "borrowed_return:nested_elided_in_elided_reference", "borrowed_return:nested_elided_in_elided_reference_next_to_reference_argument", "borrowed_return:typed_receiver_named"][k]);
+        classes.push(["borrowed_return:receiver_elided", "borrowed_return:receiver_named", "borrowed_return:argument_named", "borrowed_return:receiver_named_and_elided", "borrowed_return:receiver_elided_next_to_reference_argument", "borrowed_return:nested_elided_in_elided_reference", "borrowed_return:nested_elided_in_elided_reference_next_to_reference_argument", "borrowed_return:typed_receiver_named", "borrowed_return:block_dependency_with_anonymous_lifetime"][k]);
     }
     if gen_method.is_some() {
         classes.push("method_with_type_and_const_parameters");
